@@ -1,3 +1,127 @@
 import Cppcms.Common
-/-! Line-protocol driver for C16 (stub: model not written yet). -/
-def main : IO Unit := Cppcms.lineLoop () (fun s _ => (s, "unimplemented"))
+import Cppcms.C16.Model
+import Cppcms.C16.Spec
+/-! Line-protocol driver for C16.
+
+Model lines (answered by the state machines of `Model.lean`):
+* `dg md5|sha1 <chunk>* (/ <chunk>*)*` — one digest object, one message per `/`-separated group, each
+  chunk one `append`; prints the read-outs.
+* `hmac md5|sha1 <key> <chunk>* (/ <chunk>*)*` — same for one `hmac` object.
+* `cbc <iv> <table> (e|d <blocks>)*` — one `cbc` object after `set_iv`; `<table>` lists the block
+  function as `in:out` pairs recorded from libcrypto's raw AES (oracle answers for the external);
+  every `e`/`d` group is one `encrypt`/`decrypt` call on whole 16-byte blocks.
+* `key <text>` — `key::set_hex`.
+Judge lines (`J …`, answered by the definitions of `Spec.lean` only) evaluate the property predicate
+on an output of the implementation. -/
+open Cppcms Cppcms.C16
+
+def zeros64 : Bytes := List.replicate 64 0
+
+/-- split a word list at "/" -/
+def groups : List String → List (List String)
+  | [] => [[]]
+  | w :: ws =>
+    match groups ws with
+    | [] => [[w]]
+    | g :: gs => if w == "/" then [] :: g :: gs else (w :: g) :: gs
+
+def parseAll (ws : List String) : Option (List Bytes) := ws.mapM parseHex
+
+def parseSession (ws : List String) : Option (List (List Bytes)) := (groups ws).mapM parseAll
+
+def joinHex (ds : List Bytes) : String := " ".intercalate (ds.map toHex)
+
+def runSession {σ : Type} (H : HashObj σ) (ws : List String) : String :=
+  match parseSession ws with
+  | some msgs => joinHex (H.session H.fresh msgs)
+  | none => "bad-op"
+
+def keyStr : KeyResult → String
+  | .ok k => "ok " ++ toHex k
+  | .oddLength => "odd"
+  | .invalidChar => "invalid"
+
+def specKeyStr (s : Bytes) : String :=
+  if s.length % 2 == 1 then "odd" else
+  match Spec.fromHex s with
+  | some k => "ok " ++ toHex k
+  | none => "invalid"
+
+def parseTable (s : String) : Option (List (Bytes × Bytes)) :=
+  if s == "-" then some [] else
+  (s.splitOn ",").mapM fun p =>
+    match p.splitOn ":" with
+    | [a, b] => match parseHex a, parseHex b with
+      | some x, some y => some (x, y)
+      | _, _ => none
+    | _ => none
+
+def lookup (t : List (Bytes × Bytes)) (x : Bytes) : Bytes :=
+  match t.find? (fun p => p.1 == x) with
+  | some p => p.2
+  | none => []   -- a block the oracle was not asked about: shows up as a diff
+
+def lookupInv (t : List (Bytes × Bytes)) (y : Bytes) : Bytes :=
+  match t.find? (fun p => p.2 == y) with
+  | some p => p.1
+  | none => []
+
+def cbcRun (t : List (Bytes × Bytes)) : CbcState Bytes → List String → Option (List String)
+  | _, [] => some []
+  | s, "e" :: h :: rest => do
+    let d ← parseHex h
+    let (o, s') := cbcEncryptCall xorBytes (lookup t) s (Spec.chunks 16 d)
+    let r ← cbcRun t s' rest
+    pure (toHex o.flatten :: r)
+  | s, "d" :: h :: rest => do
+    let d ← parseHex h
+    let (o, s') := cbcDecryptCall xorBytes (lookupInv t) s (Spec.chunks 16 d)
+    let r ← cbcRun t s' rest
+    pure (toHex o.flatten :: r)
+  | _, _ => none
+
+def step (_ : Unit) (line : String) : Unit × String :=
+  let r : String :=
+    match words line with
+    | "dg" :: "md5" :: ws => runSession (md5Obj zeros64) ws
+    | "dg" :: "sha1" :: ws => runSession (sha1Obj zeros64) ws
+    | "hmac" :: "md5" :: k :: ws => match parseHex k with
+      | some key => runSession (hmacObj (md5Obj zeros64) key) ws
+      | none => "bad-op"
+    | "hmac" :: "sha1" :: k :: ws => match parseHex k with
+      | some key => runSession (hmacObj (sha1Obj zeros64) key) ws
+      | none => "bad-op"
+    | "cbc" :: iv :: tbl :: ws => match parseHex iv, parseTable tbl with
+      | some iv, some t => (match cbcRun t (cbcSetIv iv) ws with
+        | some outs => " ".intercalate outs
+        | none => "bad-op")
+      | _, _ => "bad-op"
+    | ["key", h] => match parseHex h with
+      | some s => keyStr (setHex s)
+      | none => "bad-op"
+    | ["sha1len", n] => match n.toNat? with
+      | some k => toHex (nats (Gen.sha1LenBytes (Gen.sha1BitCount (k % 2 ^ 64))))
+      | none => "bad-op"
+    -- judges: `Spec` only
+    | ["J", "md5", m, d] => match parseHex m, parseHex d with
+      | some m, some d => boolStr (Spec.md5 m == d)
+      | _, _ => "bad-op"
+    | ["J", "sha1", m, d] => match parseHex m, parseHex d with
+      | some m, some d => boolStr (Spec.sha1 m == d)
+      | _, _ => "bad-op"
+    | ["J", "hmac", "md5", k, m, d] => match parseHex k, parseHex m, parseHex d with
+      | some k, some m, some d => boolStr (Spec.hmac Spec.md5 64 k m == d)
+      | _, _, _ => "bad-op"
+    | ["J", "hmac", "sha1", k, m, d] => match parseHex k, parseHex m, parseHex d with
+      | some k, some m, some d => boolStr (Spec.hmac Spec.sha1 64 k m == d)
+      | _, _, _ => "bad-op"
+    | "J" :: "key" :: h :: res => match parseHex h with
+      | some s => boolStr (specKeyStr s == " ".intercalate res)
+      | none => "bad-op"
+    | ["J", "sha1len", n, d] => match n.toNat?, parseHex d with
+      | some k, some d => boolStr (Spec.be64 (8 * k % 2 ^ 64) == d)
+      | _, _ => "bad-op"
+    | _ => "bad-op"
+  ((), r)
+
+def main : IO Unit := lineLoop () step
